@@ -223,7 +223,8 @@ async def addressbook_from_resource(resource):
 
 
 def apply_text_match(el: ET.Element, value: str) -> bool:
-    collation = el.get("collation", "i;ascii-casemap")
+    # RFC 6352 section 10.5.4: the default collation is i;unicode-casemap
+    collation = el.get("collation", "i;unicode-casemap")
     negate_condition = el.get("negate-condition", "no")
     match_type = el.get("match-type", "contains")
     matches = _mod_collation.collations[collation](value, el.text or "", match_type)
